@@ -160,7 +160,8 @@ def IndexOK (le : Bytes → Bytes → Bool) (lim : Nat) (ci : ColumnIndex) (ps :
    (ci.nullCounts = [] ∨ ci.nullCounts = (datas ps).map (·.nulls)) ∧
    (∀ i lo hi, ((datas ps)[i]?).bind (·.bounds) = some (lo, hi) →
       le (ci.minValues.getD i []) lo = true ∧ le hi (ci.maxValues.getD i []) = true ∧
-      (lim > 0 → (ci.minValues.getD i []).length ≤ lim ∨ ci.minValues.getD i [] = lo)) ∧
+      (lim > 0 → (ci.minValues.getD i []).length ≤ lim ∨ ci.minValues.getD i [] = lo) ∧
+      (lim > 0 → (ci.maxValues.getD i []).length ≤ lim ∨ ci.maxValues.getD i [] = hi)) ∧
    (ci.repHist = [] ∨ ci.repHist = (datas ps).flatMap (·.repCounts)) ∧
    (ci.defHist = [] ∨ ci.defHist = (datas ps).flatMap (·.defCounts)))
 
@@ -318,6 +319,35 @@ theorem specLocs_length (start row : Nat) : ∀ ps : List PageOp,
       simp [specLocs, dataPages, hd']
       simpa [dataPages] using specLocs_length (start + p.size) (row + p.numRows) ps
 
+/-! ## a different size limit at the destination -/
+
+theorem getD_length_le (l : List Bytes) (i n : Nat) (h : ∀ b ∈ l, b.length ≤ n) : (l.getD i []).length ≤ n := by
+  by_cases hi : i < l.length
+  · rw [List.getD_eq_getElem?_getD, List.getElem?_eq_getElem hi]
+    exact h _ (List.getElem_mem hi)
+  · rw [List.getD_eq_getElem?_getD, List.getElem?_eq_none (by omega)]
+    simp
+
+/-- **splice_describes_limit**: source written under `ColumnIndexSizeLimit limA`, destination
+    configured with `limB`. What `statisticsSettingsMatch` checks on the source (every column index
+    value at most `limB` bytes when `limB > 0`: `PageInfo.minLen/maxLen ≤ d.indexLimit` in
+    `CopyPath`) is enough for the spliced metadata to describe the pages *under the destination's
+    limit*: bounds stay bounds, and no entry exceeds `limB`. -/
+theorem splice_describes_limit (le : Bytes → Bytes → Bool) (limA limB srcStart dstStart : Nat) (src : FullMeta) (ps : List PageV)
+    (h : Describes le limA src srcStart ps)
+    (hlim : limB > 0 → ∀ b ∈ src.columnIndex.minValues ++ src.columnIndex.maxValues, b.length ≤ limB) :
+    ∃ m, spliceChunkV src dstStart = some m ∧ Describes le limB m dstStart ps := by
+  obtain ⟨m, hm, hd, hc, -⟩ := splice_describes le limA srcStart dstStart src ps h
+  refine ⟨m, hm, hd.1, ?_, hd.2.2⟩
+  rcases hd.2.1 with hn | ⟨h1, h2, h3, h4, h5, h6, h7⟩
+  · exact Or.inl hn
+  · refine Or.inr ⟨h1, h2, h3, h4, ?_, h6, h7⟩
+    intro i lo hi hb
+    obtain ⟨a, b, -, -⟩ := h5 i lo hi hb
+    refine ⟨a, b, fun hpos => Or.inl ?_, fun hpos => Or.inl ?_⟩
+    · exact getD_length_le _ i limB (fun x hx => hlim hpos x (by rw [← hc]; exact List.mem_append_left _ hx))
+    · exact getD_length_le _ i limB (fun x hx => hlim hpos x (by rw [← hc]; exact List.mem_append_right _ hx))
+
 /-! ## the whole row group -/
 
 /-- **splice_rowGroup_describes**: a row group all of whose columns are spliced: chunk `i` of the
@@ -453,7 +483,7 @@ example : spliceChunkV (exMeta 4) 1000 =
     some { exMeta 1000 with encStats := [⟨0, 8, 2⟩, ⟨2, 0, 1⟩] } := by decide
 
 -- the hypothesis of `splice_describes` is satisfiable: this metadata describes these pages at 4
-example : Describes exLe 8 (exMeta 4) 4 exPages := by
+theorem exMeta_describes : Describes exLe 8 (exMeta 4) 4 exPages := by
   refine ⟨rfl, Or.inr ⟨by decide, by decide, by decide, Or.inr (by decide), ?_, Or.inr (by decide), Or.inr (by decide)⟩,
     ⟨by decide, Or.inr (by decide), Or.inr (by decide)⟩, ⟨by decide, ?_, ?_⟩, Or.inr ⟨by decide, by decide⟩⟩
   · intro i lo hi h
